@@ -532,15 +532,15 @@ PROPS = {
     "C24": dict(
         theorems=["BluetoeModel.Adv.inv_reachable", "BluetoeModel.Adv.timeout_channel_successor",
                   "BluetoeModel.Adv.cycle_visits_enabled_ascending_once", "BluetoeModel.Adv.enabledIdxs_spec",
-                  "BluetoeModel.Adv.map_change_selects_lowest", "BluetoeModel.Adv.start_on_current_partial",
+                  "BluetoeModel.Adv.map_change_selects_lowest", "BluetoeModel.Adv.start_on_lowest",
                   "BluetoeModel.Adv.count_bounds_pdus", "BluetoeModel.Adv.startn_budget", "BluetoeModel.Adv.stop_silences"],
-        witnesses=["BluetoeModel.Adv.start_on_lowest_witness"],
+        witnesses=[],
         run=run_c24,
         harness_keys=["default"],
         level="proof",
         technique="Lean 4 invariant + refinement-to-successor proof over all histories (complete decide tables for the 8x3 bit-level domain) + exhaustive/differential correspondence with the real advertiser classes",
-        level_text="inv_reachable + timeout_channel_successor: in every reachable state of every configuration the PDU scheduled by handle_adv_timeout goes to the cyclic successor among the enabled channels, delay 0 inside an event and interval + 0..10 ms between events; cycle_visits_enabled_ascending_once: that successor visits each enabled channel exactly once in ascending order; count_bounds_pdus / startn_budget / stop_silences: start/stop/count bound the PDUs. Model = code with fix adv-01.",
-        level_note="Known finding (start_on_lowest_witness): a restart resumes on the channel of the last PDU. Map changes while advertising are documented as unsupported and are compared model<->code only.",
+        level_text="inv_reachable + timeout_channel_successor: in every reachable state of every configuration the PDU scheduled by handle_adv_timeout goes to the cyclic successor among the enabled channels, delay 0 inside an event and interval + 0..10 ms between events; cycle_visits_enabled_ascending_once: that successor visits each enabled channel exactly once in ascending order; start_on_lowest: every (re)start (handle_start_advertising, start_advertising, directed_advertising_address) transmits without delay on the lowest enabled channel, so the first event after a restart is complete as well; count_bounds_pdus / startn_budget / stop_silences: start/stop/count bound the PDUs. Model = code with fixes adv-01 and adv-02.",
+        level_note="Map changes while advertising are documented as unsupported and are compared model<->code only.",
         design_ref="§5 C24",
         assumptions=["the link layer calls handle_adv_timeout / handle_adv_receive only for a scheduled advertisement",
                      "channel map not empty when advertising (documented requirement)"],
